@@ -292,21 +292,4 @@ pub proof fn axiom_payload_error_is_4xx(t: web::PayloadError)
     ensures 400 <= <Error as VerifFrom<web::PayloadError>>::from_spec(t).status@ < 500,
 {}
 
-// ---------------------------------------------------------------- uuid text (A11)
-pub uninterp spec fn uuid_text(u: Uuid) -> Seq<char>;
-pub uninterp spec fn uuid_parse(s: Seq<char>) -> Option<Uuid>;
-pub struct UuidParseError;
-impl Uuid {
-    #[verifier::external_body]
-    pub fn to_string(&self) -> (r: String)
-        ensures r@ == uuid_text(*self),
-    { unimplemented!() }
-    #[verifier::external_body]
-    pub fn parse_str(s: &str) -> (r: core::result::Result<Uuid, UuidParseError>)
-        ensures
-            r is Ok <==> uuid_parse(s@) is Some,
-            r is Ok ==> Some(r->Ok_0) == uuid_parse(s@),
-    { unimplemented!() }
-}
-
 } // verus!
